@@ -282,6 +282,10 @@ func libraryFormat(tm time.Time) ([]byte, error) {
 		return nil, err
 	}
 	wb := avro.NewWriteBuf(nil)
+	// the previous value written by the process: the same second seen from another zone
+	prev := timeRec{T: tm.Add(300 * time.Millisecond).In(time.FixedZone("", (tm.Second()%27-13)*1800))}
+	tc.Write(wb, reflect.ValueOf(&prev).UnsafePointer())
+	wb.Reset()
 	r := timeRec{T: tm}
 	tc.Write(wb, reflect.ValueOf(&r).UnsafePointer())
 	d, err := ref.DecodeExact(ref.Schema{Kind: "record", Name: "r", Fields: []ref.Field{{Name: "t", Type: ref.Prim("string")}}}, wb.Bytes())
@@ -407,6 +411,11 @@ func (specTime) draw(t *rapid.T) time.Time {
 		nsec = rapid.Int64Range(0, 999999999).Draw(t, "nsec")
 	}
 	tm := time.Unix(sec, nsec).UTC()
+	if gen.Uniform(t, "edgeInstant", 25) == 0 {
+		// the ends of the range and the epoch, a hair off the round value (UTC, so that the local year stays within 1-9999)
+		base := []int64{-62135596800, -62135596800, 0, 253402300799, -62135596799, -1}[gen.Uniform(t, "edgeBase", 6)]
+		return time.Unix(base, []int64{1, 500000000, 999999999, 0, 250000000, 1000}[gen.Uniform(t, "edgeNs", 6)]).UTC()
+	}
 	if gen.Uniform(t, "ocls", 2) == 1 {
 		tm = tm.In(time.FixedZone("", 60*rapid.IntRange(-23*60-59, 23*60+59).Draw(t, "off")))
 	}
